@@ -17,6 +17,17 @@ import (
 	"github.com/hyperjumptech/grule-rule-engine/engine"
 )
 
+func distinctSal(rs []*Rule) bool {
+	seen := map[int64]bool{}
+	for _, r := range rs {
+		if seen[r.Sal] {
+			return false
+		}
+		seen[r.Sal] = true
+	}
+	return true
+}
+
 // ---------------------------------------------------------------- C04
 // which leaf locations differ between two facts
 func factDiff(a, b *Fact, na, nb int64) []string {
@@ -693,6 +704,31 @@ func runEngVariant(prop string) runner {
 					}
 				}
 				emit(s, obs)
+				if q.chance(1, 5) {
+					// operand order: `l + r` and `r + l` over strings in ONE knowledge base (two rules, two sinks); string
+					// concatenation is not commutative, each occurrence is evaluated in its own order
+					l, rr := g.strExpr(1), g.strExpr(1)
+					ra := &Rule{Name: "R0", Desc: "l + r", Sal: 1, When: cBool(true), Then: []*Stmt{assign(vPath("F", "S"), "=", mkBin("+", l, rr)), call(fn("Retract", cStr("R0")))}}
+					rb := &Rule{Name: "R1", Desc: "r + l", Sal: 0, When: cBool(true), Then: []*Stmt{assign(vSel(vPath("F", "SArr"), cInt(0)), "=", mkBin("+", rr, l)), call(fn("Retract", cStr("R1")))}}
+					s2 := EngScenario{Rules: []*Rule{ra, rb}, Fact: genFact(q), N: int64(q.intn(3)), MaxCycle: 5, CancelAt: -1, Listeners: 1}
+					o2, err := runEngScenario(s2, true)
+					if err != nil {
+						return err
+					}
+					if o2.OracleMsg == "" && o2.Outcome == "nil" {
+						if w0 := nativeExpr(mkBin("+", l, rr), s2.Fact, s2.N); w0.k == "str" {
+							mid := s2.Fact.clone()
+							mid.S = w0.s
+							if w1 := nativeExpr(mkBin("+", rr, l), mid, s2.N); w1.k == "str" && len(o2.Fact.SArr) > 0 {
+								rep.count("operand-order pair (l + r, r + l in one knowledge base)")
+								if o2.Fact.S != w0.s || o2.Fact.SArr[0] != w1.s {
+									o2.OracleMsg = fmt.Sprintf("C05: in one knowledge base %s stores %q and %s stores %q; the documented semantics give %q and %q", mkBin("+", l, rr).grl(), o2.Fact.S, mkBin("+", rr, l).grl(), o2.Fact.SArr[0], w0.s, w1.s)
+								}
+							}
+						}
+					}
+					emit(s2, o2)
+				}
 			case "C07":
 				g := &gen{p: q, ops: map[string]int{}}
 				r1 := g.rule(0, 2)
@@ -754,6 +790,9 @@ func runEngVariant(prop string) runner {
 			case "C08":
 				// a history of calls on ONE instance; every call is compared with the model of a fresh run
 				s0 := genEng(q, prop)
+				if q.chance(2, 3) {
+					distinctSaliences(q, s0.Rules) // no ties: the history can be compared with fresh instances on the implementation alone
+				}
 				lib, err := buildSplit(s0)
 				if err != nil {
 					return err
@@ -814,6 +853,20 @@ func runEngVariant(prop string) runner {
 					}
 					if obs.OracleMsg == "" && len(obs.Inactive) > 0 && len(obs.Inactive[0]) > 0 {
 						obs.OracleMsg = fmt.Sprintf("rules %v are still retracted when the call starts", obs.Inactive[0])
+					}
+					if obs.OracleMsg == "" && s.CancelAt < 0 && !s.RetErr && distinctSal(s0.Rules) {
+						// the property itself, on the implementation alone: the same call on a fresh instance of the same
+						// knowledge base (saliences pairwise distinct, so the firing order does not depend on map order; without
+						// ReturnErrOnFailedRuleEvaluation, because with it the rule named by the error is the first failing one in
+						// the evaluation order of the pass, which is map order)
+						if fresh, err := lib.NewKnowledgeBaseInstance("Eng", "1"); err == nil {
+							o2 := runEngOn(fresh, s, s.Fact.clone(), false, nil)
+							if o2.Outcome != obs.Outcome || o2.Fact.dump() != obs.Fact.dump() || o2.N != obs.N {
+								obs.OracleMsg = fmt.Sprintf("the reused instance ends %s with facts %s N=%d; a fresh instance of the same knowledge base on the same facts ends %s with facts %s N=%d",
+									obs.Outcome, obs.Fact.dump(), obs.N, o2.Outcome, o2.Fact.dump(), o2.N)
+							}
+							rep.count("history: call compared with a fresh instance (distinct saliences)")
+						}
 					}
 					if obs.OracleMsg != "" {
 						obs.OracleMsg = fmt.Sprintf("C08 (call %d of a history on one instance): %s", c+1, obs.OracleMsg)
